@@ -6,6 +6,7 @@ import (
 	"encoding/json"
 	"fmt"
 	"os"
+	"runtime"
 	"sort"
 	"strconv"
 	"strings"
@@ -187,6 +188,15 @@ func (c *Ctx) Watch(limit time.Duration, flush func()) {
 		for {
 			time.Sleep(time.Second)
 			s := c.curStart.Load()
+			var ms runtime.MemStats
+			runtime.ReadMemStats(&ms)
+			if s != 0 && ms.HeapAlloc > 6<<30 {
+				// a runaway allocation inside the running case: stop before the sandbox runs out of memory
+				c.R.Notes = append(c.R.Notes, fmt.Sprintf("heap reached %d MiB inside one call", ms.HeapAlloc>>20))
+				c.R.Hang = c.cur.Load()
+				flush()
+				os.Exit(3)
+			}
 			if s != 0 && time.Since(time.Unix(0, s)) > limit {
 				c.R.Hang = c.cur.Load()
 				flush()
